@@ -399,8 +399,12 @@ func (vc *FuncVC) applyContract(s *State, cl *callee, ord int, site ssa.Instruct
 		var as []Term
 		var sorts []string
 		for _, dep := range pureDeps(c) {
-			as = append(as, vc.get(s, "G:"+dep, "Int"))
-			sorts = append(sorts, "Int")
+			ds := "Int"
+			if gs, ok := vc.ghostSort(dep); ok {
+				ds = gs
+			}
+			as = append(as, vc.get(s, "G:"+dep, ds))
+			sorts = append(sorts, ds)
 		}
 		vc.eng.notePure(lastSeg(cl.name), c)
 		for _, a := range cl.args {
@@ -561,7 +565,7 @@ func (vc *FuncVC) havocMod(s *State, e *env, m string) {
 	nv := vc.freshConst("hv_"+base, sort)
 	vc.set(s, key, nv)
 	vc.noteWrite(key)
-	if key == "alloc" {
+	if key == "alloc" && vc.useQuantSlices {
 		vc.emit("(assert (forall ((r!q Int)) (! (=> (select %s r!q) (select %s r!q)) :pattern ((select %s r!q)))))", old.S, nv.S, nv.S)
 	}
 }
@@ -642,6 +646,36 @@ func (vc *FuncVC) appendOp(s *State, cc *ssa.CallCommon, args []Term, pos token.
 	is := "(Array Int " + es + ")"
 	hs := "(Array Int " + is + ")"
 	h := vc.get(s, "A:"+es, hs)
+	// the common case append(s, v): the variadic argument is a one-element array literal
+	if sx, ok := cc.Args[1].(*ssa.Slice); ok && sx.Low == nil && sx.High == nil {
+		if al, ok := sx.X.(*ssa.Alloc); ok {
+			if at, ok := al.Type().Underlying().(*types.Pointer).Elem().Underlying().(*types.Array); ok && at.Len() == 1 {
+				v := T(es, fmt.Sprintf("(select (select %s (s!arr %s)) (s!off %s))", h.S, t.S, t.S))
+				n := T("Int", fmt.Sprintf("(+ (s!len %s) 1)", sl.S))
+				inplace := T("Bool", fmt.Sprintf("(<= %s (s!cap %s))", n.S, sl.S))
+				r := vc.freshRef(s, "append_arr")
+				vc.noteWrite("alloc")
+				ncap := vc.freshConst("append_cap", "Int")
+				vc.assume(s.pc, app("Bool", ">=", ncap, n))
+				res := vc.freshConst("append", "Slice")
+				vc.emit("(assert (=> %s (= %s (ite %s (mkS (s!arr %s) (s!off %s) %s (s!cap %s)) (mkS %s 0 %s %s)))))",
+					s.pc.S, res.S, inplace.S, sl.S, sl.S, n.S, sl.S, r.S, n.S, ncap.S)
+				// the reallocated array: old elements, then v
+				R := vc.freshConst("append_new", is)
+				vc.emit("(assert (=> %s (= (select %s (s!len %s)) %s)))", s.pc.S, R.S, sl.S, v.S)
+				if vc.useQuantSlices {
+					vc.emit("(assert (=> %s (forall ((j!q Int)) (! (=> (and (<= 0 j!q) (< j!q (s!len %s))) (= (select %s j!q) (select (select %s (s!arr %s)) (+ (s!off %s) j!q)))) :pattern ((select %s j!q))))))",
+						s.pc.S, sl.S, R.S, h.S, sl.S, sl.S, R.S)
+				}
+				nh := T(hs, fmt.Sprintf("(ite %s (store %s (s!arr %s) (store (select %s (s!arr %s)) (+ (s!off %s) (s!len %s)) %s)) (store %s %s %s))",
+					inplace.S, h.S, sl.S, h.S, sl.S, sl.S, sl.S, v.S, h.S, r.S, R.S))
+				vc.set(s, "A:"+es, nh)
+				vc.noteWrite("A:" + es)
+				vc.typeFacts(s.pc, res, cc.Args[0].Type())
+				return res
+			}
+		}
+	}
 	n := T("Int", fmt.Sprintf("(+ (s!len %s) (s!len %s))", sl.S, t.S))
 	inplace := T("Bool", fmt.Sprintf("(<= %s (s!cap %s))", n.S, sl.S))
 	r := vc.freshRef(s, "append_arr")
